@@ -205,8 +205,23 @@ def verdict_defs(body):
             if p is not None and p.k == "agg" and p.adt == BLOCKRET:
                 out.append((bb, p.variant, p))
             elif p is not None and p.k == "multi" and p.alts and all(a.k == "agg" and a.adt == BLOCKRET for a in p.alts):
-                for a in p.alts:
-                    out.append((bb, a.variant, a))
+                # one verdict per arm of the `if`/`match` that produced the value: located where that arm builds it, so that the
+                # guards of the arm (not only those of the join) are seen by the callers
+                defs = [d for d in body.defs().get(p.local, []) if d[2] == "rv" and d[0] in reach]
+                arms = []
+                for dbb, dsi, kind, payload in defs:
+                    ae = body.rvalue_expr(payload)
+                    n2 = 0
+                    while ae is not None and ae.k == "multi" and ae.alts and len(ae.alts) == 1 and n2 < 5:
+                        ae = ae.alts[0]
+                        n2 += 1
+                    if ae is not None and ae.k == "agg" and ae.adt == BLOCKRET:
+                        arms.append((dbb, ae.variant, ae))
+                if len(arms) == len(p.alts):
+                    out.extend(arms)
+                else:
+                    for a in p.alts:
+                        out.append((bb, a.variant, a))
             else:
                 out.append((bb, "?", inner))
         elif e.k == "call" and e.q and e.q.endswith("from_residual"):
